@@ -4,7 +4,12 @@
 #   <name> <property> exit=<0|1|2> keys=...      exit 1 = reported (wanted), 0 = MISSED, 2 = engine error
 cd "$(dirname "$0")" || exit 2
 tier="${1:-quick}"
-for d in seeded/*/; do
+# RESEED_PROPS="C14 C18" restricts the run to the seeds and mutants of these properties, in this order (default: all);
+# VERIF_FIRST=1 (set here) makes the driver skip the shards not yet started once a violation is reported
+export VERIF_FIRST=1
+props_order="${RESEED_PROPS:-C01 C02 C03 C04 C05 C06 C07 C08 C09 C10 C11 C12 C13 C14 C15 C16 C17 C18 C19 C20}"
+for pp in $props_order; do
+for d in seeded/$pp-*/; do
   n=$(basename "$d")
   [ -f "$d/patch.diff" ] || continue
   props=$(python3 -c "
@@ -18,8 +23,10 @@ print(' '.join(ps))")
     [ $rc = 1 ] && break
   done
 done
-for m in mutants/*.patch; do
+for m in mutants/$pp*.patch; do
+  [ -f "$m" ] || continue
   p=$(basename "$m" | cut -c1-3)
   out=$(./check $p $tier --mutant "$m" 2>&1); rc=$?
   echo "mutant $(basename $m) $p exit=$rc $(echo "$out" | grep '^  key:' | head -1 | cut -c1-120)"
+done
 done
